@@ -13,11 +13,12 @@ From Verif Require Import Base.Str.
 From Verif Require Import Gen.GenSecrets Gen.GenNoteWriters Model.Redact.
 Open Scope N_scope.
 
-Record prompt := mkPrompt { p_id : list N; p_tool : list N; p_messages : list msg }.
+(* p_accepted: accepted_lines of the record (lines of the session that are in the commit) *)
+Record prompt := mkPrompt { p_id : list N; p_tool : list N; p_accepted : N; p_messages : list msg }.
 Definition note := list prompt.
 Definition notes := list note.
 
-Definition set_messages (p : prompt) (ms : list msg) : prompt := mkPrompt (p_id p) (p_tool p) ms.
+Definition set_messages (p : prompt) (ms : list msg) : prompt := mkPrompt (p_id p) (p_tool p) (p_accepted p) ms.
 
 (* ---------- Config::effective_prompt_storage ---------- *)
 
@@ -57,6 +58,8 @@ Definition stored_transcript (tool : list N) (meta_keys : list (list N)) (ms : l
 (* what one run of post_commit finds in its environment *)
 Record env := mkEnv { e_logged_in : bool; e_cas_ok : bool }.
 
+Definition msgs_nil (ms : list msg) : bool := match ms with [] => true | _ => false end.
+
 Fixpoint put_messages (l : note) (mss : list (list msg)) : note :=
   match l, mss with
   | p :: l', ms :: mss' => set_messages p ms :: put_messages l' mss'
@@ -83,15 +86,26 @@ Section WithClassifier.
     | AKeep | ARedactThenCas => Ok l
     end.
 
-  (* ARedactThenCas: redact, enqueue to the CAS queue; the enqueue clears the messages of every record
-     (cas_success_clears); when it fails the failure arm runs *)
+  (* enqueue_prompt_messages_to_cas, successful run: every record that meets all the conditions the source
+     lists (Gen: cas_clear_when) is uploaded and its messages cleared; the others are left as they are *)
+  Definition cas_atom_holds (p : prompt) (a : cas_atom) : bool :=
+    match a with
+    | CHasMessages => negb (msgs_nil (p_messages p))
+    | CAcceptedPositive => 0 <? p_accepted p
+    end.
+  Definition cas_takes_with (atoms : list cas_atom) (p : prompt) : bool := forallb (cas_atom_holds p) atoms.
+  Definition cas_clear_with (atoms : list cas_atom) (l : note) : note :=
+    map (fun p => if cas_takes_with atoms p then set_messages p [] else p) l.
+  Definition cas_clear (l : note) : note := cas_clear_with cas_clear_when l.
+
+  (* ARedactThenCas: redact, enqueue to the CAS queue (cas_clear); when the enqueue fails the failure arm runs *)
   Definition run_action (e : env) (failure : action) (a : action) (l : note) : outcome note :=
     match a with
     | ARedactThenCas =>
         match redact_log l with
         | Panic => Panic
         | Ok l' =>
-            if e_cas_ok e then Ok (if cas_success_clears then strip_log l' else l')
+            if e_cas_ok e then Ok (cas_clear l')
             else run_simple failure l'
         end
     | _ => run_simple a l
@@ -114,7 +128,7 @@ Section WithClassifier.
     s_worklog : note;               (* records assembled from the working log: checkpoint transcripts, INITIAL prompts *)
     s_picks : list (nat * nat) }.   (* (note, record) positions copied from existing notes *)
 
-  Definition dummy_prompt : prompt := mkPrompt [] [] [].
+  Definition dummy_prompt : prompt := mkPrompt [] [] 0 [].
 
   Definition pick (ns : notes) (ij : nat * nat) : prompt :=
     nth (snd ij) (nth (fst ij) ns []) dummy_prompt.
@@ -152,7 +166,6 @@ End WithClassifier.
 Definition clean_prompt (p : prompt) : Prop := p_messages p = [].
 Definition Inv_clean (ns : notes) : Prop := Forall (Forall clean_prompt) ns.
 
-Definition msgs_nil (ms : list msg) : bool := match ms with [] => true | _ => false end.
 Definition inv_cleanb (ns : notes) : bool := forallb (forallb (fun p => msgs_nil (p_messages p))) ns.
 
 (* ---------- the inventory check ---------- *)
@@ -160,11 +173,16 @@ Definition inv_cleanb (ns : notes) : bool := forallb (forallb (fun p => msgs_nil
 Definition is_strip (a : action) : bool := match a with AStrip => true | _ => false end.
 Definition is_redact (a : action) : bool := match a with ARedact => true | _ => false end.
 
+(* the successful enqueue clears EVERY record that has messages: no condition beyond having messages *)
+Definition atoms_clear_all (atoms : list cas_atom) : bool :=
+  forallb (fun a => match a with CHasMessages => true | CAcceptedPositive => false end) atoms.
+Definition cas_clears_all : bool := atoms_clear_all cas_clear_when.
+
 (* an action after which no record has messages left, whatever the environment *)
 Definition clears (failure a : action) : bool :=
   match a with
   | AStrip => true
-  | ARedactThenCas => cas_success_clears && is_strip failure
+  | ARedactThenCas => cas_clears_all && is_strip failure
   | ARedact | AKeep => false
   end.
 
